@@ -19,11 +19,12 @@ CONF_T = CONF_Q + [("isi", {"MRTS": 40 * U}), ("spike", {"RI": True}), ("spike",
 
 # (kind, parameter, exact?)  exact: results must be bit-identical
 TRANSFORMS = [("shift", 3 * U, True), ("shift", -(2.5 * U + T0), True), ("shift", 1024.0, True),
+              ("shift", 2.0 ** 27, True),      # far from the origin (skipped where not exact)
               ("scale", 0.5, True), ("scale", 2.0, True), ("scale", 3.0, False),
               ("scale", 2.0 ** -8, True), ("reflect", None, False)]
 
 
-TRANSFORMS_Q = [TRANSFORMS[1], TRANSFORMS[2], TRANSFORMS[3], TRANSFORMS[5], TRANSFORMS[7]]
+TRANSFORMS_Q = [TRANSFORMS[1], TRANSFORMS[3], TRANSFORMS[4], TRANSFORMS[6], TRANSFORMS[8]]
 
 
 def plan(tier):
@@ -118,6 +119,9 @@ def evaluate(r, trains, edges, name, kw, transforms, be, rank=()):
         if kind == "shift":
             f = lambda t: t + par
             kw2 = kw
+            if any((t + par) - par != t for tr in trains for t in tr) or (ts + par) - par != ts \
+                    or (te + par) - par != te:
+                continue            # this shift is not exactly representable for this input
         elif kind == "scale":
             f = lambda t: t * par
             kw2 = scale_kw(kw, par)
